@@ -223,7 +223,8 @@ func (s *soup) rdfaElem(depth int, vocab bool) *Node {
 	if s.r.Chance(25) {
 		add("typeof", strings.TrimSpace(s.predVal(vocab)))
 	}
-	switch s.r.Intn(6) {
+	// every combination of @property / @rel / @rev (steps 5, 6 and 11 depend on which of them are present)
+	switch s.r.Intn(11) {
 	case 0, 1:
 		add("property", s.predVal(vocab))
 	case 2:
@@ -231,10 +232,18 @@ func (s *soup) rdfaElem(depth int, vocab bool) *Node {
 	case 3:
 		add("rev", s.predVal(vocab))
 	case 4:
-		if s.r.Chance(30) {
-			add("property", s.predVal(vocab))
-			add("rel", s.predVal(vocab))
-		}
+		add("property", s.predVal(vocab))
+		add("rel", s.predVal(vocab))
+	case 5, 6:
+		add("property", s.predVal(vocab))
+		add("rev", s.predVal(vocab))
+	case 7:
+		add("rel", s.predVal(vocab))
+		add("rev", s.predVal(vocab))
+	case 8:
+		add("property", s.predVal(vocab))
+		add("rel", s.predVal(vocab))
+		add("rev", s.predVal(vocab))
 	}
 	if s.r.Chance(25) {
 		add("resource", s.resVal(true))
@@ -379,16 +388,37 @@ func (s *soup) mdItem(depth int, ids *[]string, asProp bool) *Node {
 // an id, which the items outside them may name in itemref (several items may share a target; a target may come
 // before or after its referrers). Targets carry no itemref themselves, so the item graph has no cycles and no
 // element is reached twice by one crawl: the documents are valid Microdata.
+func hasItem(n *Node) bool {
+	if n.Text != nil {
+		return false
+	}
+	if _, ok := n.Attr("itemscope"); ok {
+		return true
+	}
+	for _, c := range n.Kids {
+		if hasItem(c) {
+			return true
+		}
+	}
+	return false
+}
+
 func (s *soup) mdDoc() *Node {
 	var ids []string
 	var body []*Node
 	var referrers []*Node
-	k := 1 + s.r.Intn(3)
+	var targets []*Node
+	// ids all of whose carriers contain no item ("plain" targets: property elements, possibly wrapped)
+	notPlain := map[string]bool{}
+	k := 1 + s.r.Intn(4)
 	for i := 0; i < k; i++ {
-		if s.r.Chance(30) {
+		if s.r.Chance(40) {
 			var t *Node
 			if s.r.Chance(50) {
 				t = s.mdLeaf(&ids)
+				if s.r.Chance(30) {
+					t = E("div", nil, T("block "), t, s.mdLeaf(&ids))
+				}
 			} else {
 				t = s.mdItem(1, &ids, s.r.Chance(90))
 			}
@@ -397,10 +427,19 @@ func (s *soup) mdDoc() *Node {
 				id = ids[0] // a duplicate id: the first element in tree order wins
 			}
 			ids = append(ids, id)
-			t.Attrs = append(t.Attrs, Attr{"id", id})
-			if s.r.Chance(30) {
-				t = E("div", nil, T("around "), t)
+			if s.r.Chance(35) {
+				// the id on a wrapper around the target (an item inside it is then reached by descending)
+				t = E("div", []Attr{{"id", id}}, T("around "), t)
+			} else {
+				t.Attrs = append(t.Attrs, Attr{"id", id})
+				if s.r.Chance(30) {
+					t = E("div", nil, T("around "), t)
+				}
 			}
+			if hasItem(t) {
+				notPlain[id] = true
+			}
+			targets = append(targets, t)
 			body = append(body, t)
 			continue
 		}
@@ -411,6 +450,12 @@ func (s *soup) mdDoc() *Node {
 	for i := len(body) - 1; i > 0; i-- {
 		j := s.r.Intn(i + 1)
 		body[i], body[j] = body[j], body[i]
+	}
+	var plain []string
+	for _, id := range ids {
+		if !notPlain[id] {
+			plain = append(plain, id)
+		}
 	}
 	var items []*Node
 	var walk func(n *Node)
@@ -425,16 +470,43 @@ func (s *soup) mdDoc() *Node {
 			walk(c)
 		}
 	}
+	refList := func(pool []string, withMissing bool) string {
+		n := 1
+		if s.r.Chance(45) {
+			n = 2 + s.r.Intn(2)
+		}
+		var toks []string
+		for i := 0; i < n; i++ {
+			p := pool
+			if withMissing && s.r.Chance(10) {
+				p = append(append([]string{}, pool...), "missing")
+			}
+			toks = append(toks, vh.Pick(s.r, p))
+		}
+		out := toks[0]
+		for _, t := range toks[1:] {
+			out += vh.Pick(s.r, []string{" ", "  ", "\n", "\t"}) + t
+		}
+		return out
+	}
+	// items outside the targets may reference any target, in any order
 	for _, b := range referrers {
 		walk(b)
 	}
 	for _, it := range items {
-		if len(ids) > 0 && s.r.Chance(45) {
-			ref := vh.Pick(s.r, ids)
-			if s.r.Chance(25) {
-				ref += vh.Pick(s.r, []string{" ", "  ", "\n"}) + vh.Pick(s.r, append(ids, "missing"))
-			}
-			it.Attrs = append(it.Attrs, Attr{"itemref", ref})
+		if len(ids) > 0 && s.r.Chance(50) {
+			it.Attrs = append(it.Attrs, Attr{"itemref", refList(ids, true)})
+		}
+	}
+	// items inside a target may reference plain targets only: no cycles, and the same plain block can be shared by an
+	// item and by an item nested in another block that the first one references too
+	items = nil
+	for _, t := range targets {
+		walk(t)
+	}
+	for _, it := range items {
+		if len(plain) > 0 && s.r.Chance(50) {
+			it.Attrs = append(it.Attrs, Attr{"itemref", refList(plain, false)})
 		}
 	}
 	return E("html", nil, E("head", nil), E("body", nil, body...))
